@@ -11,7 +11,7 @@ RULE = ('option tables drawn from a pool covering every declared type (LineList,
         'Boolean, Boolean+Auto, Integer, SignedInteger, DataSize, TimeInterval, Float, String, Filename) x initial values (unset, one, many; comma '
         'lists as one comma-separated value) x config/defaults supported or not; real TorConfig bootstrapped over the real protocol against the fake '
         'Tor; 1..25 operations: CONF_CHANGED events from another controller (1-3 options, 0/1/many values, option names in random letter case), '
-        'attribute reads under random letter case, assignments, in-place list edits, saves and their acknowledgement/rejection. After every '
+        'attribute reads under random letter case, assignments, for a quarter of the cases a change of 1-3 options announced while the view is still being built (between two of the GETCONF answers), in-place list edits, saves and their acknowledgement/rejection. After every '
         'operation every option is read: value and shape (tracked list or scalar) are compared with the model and with the Python statement of the '
         'property (typed parse of what Tor holds / announced); at quiescent points also with the fake Tor\'s store. non-trivial = at least one change '
         'event naming a list option or 2 events; distinct = distinct cases')
@@ -60,6 +60,17 @@ def gen_cases(rng, tier):
         tab = cfg.Table(c)
         c['reads_as'] = {n: cfgprop.mixed_case(rng, n) for n in tab.names}
         c['probe_first'] = (k % 4 == 3)      # built without a connection, looked at, then attached (the launch() path)
+        if k % 4 == 1:
+            # another controller changes 1-3 options while the view is still being built (after some of the options have been asked
+            # for): the announcement and the answers that follow it carry the new values — the view ends up as Tor's configuration
+            old_store, _ = cfgprop.gen_store(rng, options)
+            keys = rng.sample(tab.names, min(len(tab.names), rng.randint(1, 3)))
+            # (an option whose value comes from its __FooPort twin is left alone, as everywhere after the attach)
+            old = {n: list(old_store.get(n, [])) for n in keys
+                   if list(old_store.get(n, [])) != list(c['store'].get(n, [])) and '__' + n not in c['store']
+                   and not (n in tab.numeric_default and not c['store'].get(n))}     # (Tor reports a numeric option with its value, never bare)
+            if old:
+                c['mid'] = {'after': rng.randrange(len(tab.names)), 'old': old}
         if c['probe_first'] and k % 8 == 7:
             af = []
             for n in tab.names:
